@@ -166,7 +166,7 @@ def edit_arb(n, k=None, tag=None, want=None, tier="quick"):
     return Obl(name, "C17/edit.c", real=EDIT_REAL, kit=EDIT_KIT, include_real=["util/vector.c"],
                defs=defs, replace_calls=EDIT_REPLACE,
                flags=["--max-field-sensitivity-array-size", str(max(2 * n, 16) + 1)],
-               unwind=max(12, n + 2),
+               unwind=max(3, n + 2),   # no loop of the decoders can run longer than the input
                unwindset=dict([("ref_decode.0", ref_iters), ("ldb_edit_import.0", iters),
                                ("ldb_edit_clear.0", ncp + 2), ("ldb_edit_clear.1", nnf + 2),
                                ("check_edit.0", ncp + 2), ("check_edit.1", nnf + 2), ("check_edit.2", ndel + 2)] +
@@ -185,12 +185,12 @@ def edit_arb(n, k=None, tag=None, want=None, tier="quick"):
 
 for n in range(0, 4):
     OBLIGATIONS.append(edit_arb(n))
-for n in range(4, 9):
-    OBLIGATIONS.append(edit_arb(n, k=2))
+OBLIGATIONS.append(edit_arb(4, k=2))
 OBLIGATIONS.append(edit_arb(11, k=1, tag=5, want=5))
-OBLIGATIONS.append(edit_arb(12, k=1, tag=5, want=5))
-OBLIGATIONS.append(edit_arb(22, k=1, tag=7, want=7))
-OBLIGATIONS.append(edit_arb(12, k=2, tier="thorough"))
+for n in range(5, 9):
+    OBLIGATIONS.append(edit_arb(n, k=2, tier="thorough"))
+OBLIGATIONS.append(edit_arb(12, k=1, tag=5, want=5, tier="thorough"))
+OBLIGATIONS.append(edit_arb(22, k=1, tag=7, want=7, tier="thorough"))
 OBLIGATIONS.append(edit_arb(24, k=1, tag=7, want=7, tier="thorough"))
 
 # ---- f: CURRENT ----
@@ -242,9 +242,55 @@ for n in (0, 1, 2, 16, 17):
 
 META = {
     "level": "model_checking",
-    "level_text": "Bounded model checking (CBMC) of lcdb's own coding.h / version_edit.c / version_set.c code: encode/decode round trips and agreement with an independently written LevelDB-format reference for every value of the symbolic fields inside the stated sizes; counterexamples are replayed natively.",
-    "level_note": "Trusted: CBMC's C semantics of the goto-cc translation, the kit models (allocator never fails, byte-loop mem*), the harness' reference encoders/decoders. Sizes (files per edit, key lengths) are bounded and listed in the evidence; real MANIFEST histories are not executed.",
-    "bounds": ["varint32/64 and fixed32/64: all values", "varint readers: arbitrary inputs of every length 0..11"],
-    "outside": ["edit sequences produced by real histories", "thousands of files per edit"],
-    "models": ["vp_mem.c byte-loop memcpy/memcmp/memset", "vp_nondet.c symbolic input sources"],
+    "level_text": "Bounded model checking (CBMC) of lcdb's own coding.h / version_edit.c / filename.c / util/env.c / "
+                  "version_set.c code: encode/decode round trips and agreement with an independently written "
+                  "LevelDB-format reference (MANIFEST record encoder and decoder, decimal numerals, CURRENT protocol) "
+                  "for every value of the symbolic fields inside the stated sizes; counterexamples are replayed natively.",
+    "level_note": "Trusted: CBMC's C semantics of the goto-cc translation, the kit models (allocator never fails, "
+                  "fixed-size slabs, byte-loop mem*, %s-only sprintf, buffer-append wrappers), the harness' reference "
+                  "encoders/decoders. The edit round trip is decomposed: export == reference bytes, import(reference "
+                  "bytes) == original, reference decoder(reference bytes) == original, over the same field domain; one "
+                  "query does the direct export->import round trip. Numbers are fully symbolic only in the focused "
+                  "field(s) of a query (other fields take concrete representatives of every varint length); real "
+                  "MANIFEST histories are not executed.",
+    "bounds": [
+        "varint32/64 and fixed32/64: all values; varint readers: arbitrary inputs of every length 0..11",
+        "edit export: <= 2 new files, <= 2 deleted files, <= 1 compact pointer, internal keys 8..10 symbolic bytes, "
+        "comparator name 0..26 bytes; each scalar field focused once with all 64-bit values and symbolic presence; "
+        "other numbers concrete representatives of varint lengths 1..10; levels 0..6 symbolic where focused",
+        "edit import / reference decoder: the same records; a fully symbolic number or level only in records of one "
+        "or two fields; records of up to 10 fields with concrete numbers and symbolic keys",
+        "edit import on arbitrary bytes: every input of 0..4 bytes (>= 4: at most 2 fields), 11 bytes starting "
+        "with a compact-pointer tag (1 field); thorough tier: 5..8, 12, 22, 24 bytes",
+        "ldb_encode_int: every number of <= 6 decimal digits (thorough: 7 digits)",
+        "ldb_set_current_file: descriptor numbers 1, 999999, 1000000, 2^32, 2^64-1 (thorough: 5 more); each env call "
+        "fails or not with any non-zero code",
+        "ldb_write_file: 4 data bytes, should_sync any int, each primitive fails or not with any code",
+        "read_current_filename: CURRENT content of 0, 1, 2, 16, 17 arbitrary bytes; read fails or not",
+    ],
+    "outside": [
+        "edit sequences produced by real histories; thousands of files per edit; keys longer than 10 bytes",
+        "all numeric fields of one record fully symbolic at the same time (does not finish: the solver has to split "
+        "over every combination of varint lengths); symbolic numbers in decoder-side records of more than two fields",
+        "ldb_versions_recover counters contract (C17.e) is not built",
+        "descriptor numbers other than the listed ones in ldb_set_current_file; db names other than the fixed one",
+        "the file system below ldb_write_file / rename (C02)",
+    ],
+    "models": [
+        "vp_mem.c byte-loop memcpy/memcmp/memset/strlen", "vp_nondet.c symbolic input sources",
+        "vp_alloc_c17.c: ldb_malloc never fails; ldb_realloc = one fixed slab per buffer (no copy, overrun inside the "
+        "slab and stale pointers across growth invisible to CBMC, seen by the ASan replay); typed pointer slabs for "
+        "ldb_vector_t through vp_vector_inc.h (real util/vector.c text)",
+        "vp_buffer_c17.c: ldb_buffer_varint32/varint64/export replaced (--replace-calls) by models that compute the "
+        "appended length with ldb_varint*_size instead of a pointer difference and assert both agree",
+        "vp_sprintf.c: sprintf handling literal characters and %s only (the formats of filename.c)",
+        "harness stubs: ldb_write_file / ldb_rename_file / ldb_remove_file recorders (current.c); "
+        "ldb_truncfile_create0 / ldb_wfile_append0 / ldb_wfile_sync0 / ldb_wfile_close / ldb_wfile_destroy / "
+        "ldb_remove_file recorders installed with --replace-calls (env_write.c, no native replay); ldb_read_file "
+        "stub (current_read.c)",
+    ],
+    "assumptions": [
+        "edit round trip = composition of three obligations per size tuple (export bytes == reference; import of "
+        "reference bytes; reference decoder of reference bytes)",
+    ],
 }
